@@ -8,6 +8,8 @@
  */
 #include ARCH_FILE
 #include <assert.h>
+#undef assert /* the repo is built with -DNDEBUG: use CBMC assertions, which NDEBUG does not remove */
+#define assert(c) __CPROVER_assert((c), #c)
 
 volatile int imb_errno;
 int nondet_int(void);
@@ -77,16 +79,15 @@ stub_submit_new_job(IMB_MGR *s, IMB_JOB *job)
                 g_expected_next_submit = (g_expected_next_submit + 1) % N;
         }
         g_last_submitted = slot_of(job);
-        /* the job may park, or complete; other in-flight jobs may complete */
-        if (nondet_bool())
-                job->status = IMB_STATUS_COMPLETED;
-        maybe_complete_others();
+        /* K1 (proved by L1): during one submit at most ONE job becomes COMPLETED and it is the one returned: a stage call
+         * hands back at most one job and the resubmit chain follows exactly that job */
         if (nondet_bool())
                 return NULL;
         unsigned k = nondet_uint();
         __CPROVER_assume(k < (unsigned) N);
         __CPROVER_assume(in_flight_scope((int) k) || &st.jobs[k] == job);
-        __CPROVER_assume(st.jobs[k].status == IMB_STATUS_COMPLETED);
+        __CPROVER_assume(st.jobs[k].status < IMB_STATUS_COMPLETED);
+        st.jobs[k].status = IMB_STATUS_COMPLETED;
         return &st.jobs[k];
 }
 uint32_t
